@@ -32,6 +32,7 @@ def dispatch (op : String) (j : Json) : R Json :=
   | "iso" => opIso j
   | "qcvar" => opQcvar j
   | "oce" => opOce j
+  | "cash_default" => opCashDefault j
   | _ => .error s!"unknown op {op}"
 
 end PfVerif.Driver
